@@ -17,7 +17,7 @@
     of this file.  Everything outside the expander proper is an explicit input: the variable
     environment, the output of command substitutions, arithmetic results, tilde targets, the
     ANSI-C decoder, the glob-metacharacter test and the directory matcher ([oracles]). *)
-From BV Require Import Base.Prelude.
+From BV Require Import Base.Prelude gen.ExpandGen.
 
 (** * Data *)
 
@@ -100,6 +100,14 @@ Definition TAB : char := 9%N.
 Definition default_ifs : str := [SP; TAB; NL].
 Definition ifs_of (e : env) : str := match ifs e with Some s => s | None => default_ifs end.
 Definition ifs_first_char (e : env) : char := match ifs_of e with c :: _ => c | [] => SP end.
+(** the separator of "$*"-style joins.  What an EMPTY IFS gives is read from the Rust source on
+    every run (gen/ExpandGen.v): a blank in the unrepaired code, nothing once repaired. *)
+Definition ifs_joiner (e : env) : str :=
+  match ifs e with
+  | None => [SP]
+  | Some [] => empty_ifs_joiner
+  | Some (c :: _) => [c]
+  end.
 
 Fixpoint mem (c : char) (s : str) : bool :=
   match s with [] => false | x :: r => N.eqb x c || mem c r end.
@@ -178,11 +186,14 @@ Definition param_wins (colon : bool) (st : pstate) : bool :=
   | Undefined => false
   end.
 
-(** [polymorphic_len] (char count for scalars: Rust sums [piece.len()], i.e. BYTES; see
-    notes — the model is only used on ASCII values for this operator) *)
+(** [polymorphic_len]: the number of fields for an array-like expansion, else the sum of
+    [piece.len()] — the UTF-8 BYTE length (a recorded divergence from bash for non-ASCII values) *)
+Definition utf8_len (c : char) : nat :=
+  if (c <? 128)%N then 1%nat else if (c <? 2048)%N then 2%nat else if (c <? 65536)%N then 3%nat else 4%nat.
+Definition byte_len (s : str) : nat := fold_right (fun c n => (utf8_len c + n)%nat) O s.
 Definition poly_len (x : expansion) : nat :=
   if from_array x then length (fields x)
-  else fold_left (fun acc f => (acc + length (field_str f))%nat) (fields x) O.
+  else fold_left (fun acc f => (acc + byte_len (field_str f))%nat) (fields x) O.
 
 (** * Coalescing adjacent pieces *)
 
@@ -217,10 +228,10 @@ Fixpoint intersperse_flat (sep : wfield) (fs : list wfield) : wfield :=
   end.
 
 (** one iteration of the loop in [process_double_quoted_pieces] *)
-Definition dq_step (joiner : char) (acc : list wfield) (x : expansion) : list wfield :=
+Definition dq_step (joiner : str) (acc : list wfield) (x : expansion) : list wfield :=
   let to_append :=
     if concatenate x then
-      let c := intersperse_flat [Unsplittable [joiner]] (map (map make_unsplittable) (fields x)) in
+      let c := intersperse_flat [Unsplittable joiner] (map (map make_unsplittable) (fields x)) in
       [match c with [] => [Splittable []] | _ => c end]
     else fields x in
   join_fields acc (map (map make_unsplittable) to_append).
@@ -233,6 +244,11 @@ Fixpoint drop_leading_nl (s : str) : str :=
 Definition trim_trailing_nl (s : str) : str := rev (drop_leading_nl (rev s)).
 
 (** [DOUBLE_QUOTED_ESCAPE_CHARS] is only consulted by the prompt expander; not modelled. *)
+
+(** [EscapeSequence]: the text after the backslash (the whole text if, against the parser's
+    invariant, there is no backslash) *)
+Definition esc_body (s : str) : str :=
+  match s with c :: r => if N.eqb c 92 then r else s | [] => s end.
 
 (** * expand_word_piece *)
 
@@ -251,7 +267,7 @@ Fixpoint expand_piece (dq : bool) (w : wpiece) {struct w} : res expansion :=
         match ps with
         | [] => Ok acc
         | p :: r => match expand_piece true p with
-                    | Ok x => go r (dq_step (ifs_first_char e) acc x)
+                    | Ok x => go r (dq_step (ifs_joiner e) acc x)
                     | Err c => Err c
                     end
         end in
@@ -267,11 +283,7 @@ Fixpoint expand_piece (dq : bool) (w : wpiece) {struct w} : res expansion :=
   | WParam pe => expand_pexpr dq pe
   | WCmd c => Ok (exp_of_piece (Splittable (trim_trailing_nl (strip_nul (o_cmd o c)))))
   | WArith a => Ok (exp_of_piece (Splittable (o_arith o a)))
-  | WEsc s =>
-      match s with
-      | 92%N :: escaped => Ok (exp_of_piece (Unsplittable escaped))   (* in and out of quotes: Strip *)
-      | _ => Ok (exp_of_piece (Unsplittable s))
-      end
+  | WEsc s => Ok (exp_of_piece (Unsplittable (esc_body s)))   (* in and out of quotes: Strip *)
   end
 with expand_pexpr (dq : bool) (pe : pexpr) {struct pe} : res expansion :=
   match pe with
@@ -329,8 +341,8 @@ Fixpoint join_with (sep : str) (l : list str) : str :=
   end.
 
 Definition fields_to_string (x : expansion) : str :=
-  let j := if concatenate x then ifs_first_char e else SP in
-  join_with [j] (map field_str (fields x)).
+  let j := if concatenate x then ifs_joiner e else [SP] in
+  join_with j (map field_str (fields x)).
 
 Definition expand_to_str (w : word) : res str :=
   bind (basic_expand w) (fun x => Ok (fields_to_string x)).
